@@ -21,6 +21,9 @@ type ClientTransport struct {
 	dialOptions *websocket.DialOptions
 	conn        *websocket.Conn
 
+	// Maximum size of a message, as announced by the server (maxPayload). 0 means no limit.
+	maxPayload int64
+
 	callbacks *transport.Callbacks
 	once      sync.Once
 }
@@ -44,6 +47,24 @@ func NewClientTransport(
 }
 
 func (t *ClientTransport) Name() string { return "websocket" }
+
+// SetMaxPayload sets the maximum size of a message the server may send (the `maxPayload`
+// value of the handshake). It is used when this transport is created for an upgrade;
+// otherwise the value is taken from the handshake this transport receives.
+// Call this before Handshake.
+func (t *ClientTransport) SetMaxPayload(maxPayload int64) {
+	t.maxPayload = maxPayload
+}
+
+// Every message within the limit announced by the server must be accepted.
+// Without this, the default limit (32768 bytes) of the library would stay in place.
+func (t *ClientTransport) setReadLimit() {
+	if t.maxPayload > 0 {
+		t.conn.SetReadLimit(t.maxPayload)
+	} else {
+		t.conn.SetReadLimit(-1)
+	}
+}
 
 func (t *ClientTransport) Handshake() (hr *parser.HandshakeResponse, err error) {
 	q := t.url.Query()
@@ -86,7 +107,9 @@ func (t *ClientTransport) Handshake() (hr *parser.HandshakeResponse, err error) 
 		}
 
 		t.sid = hr.SID
+		t.maxPayload = hr.MaxPayload
 	}
+	t.setReadLimit()
 
 	return
 }
